@@ -36,6 +36,9 @@ type c22xCase struct {
 	After bool `json:"after,omitempty"`
 	Commit bool  `json:"commit"`  // B is followed by a COMMIT of the whole file before the first examination
 	Async  bool  `json:"async,omitempty"`
+	// Rename: instead of WRITE B, the file is renamed away (s0 -> s1) and a new s0 is created while A is parked; the
+	// bytes A is acknowledged for must be durable in whichever file holds them
+	Rename bool `json:"rename,omitempty"`
 }
 
 func genC22x(t *rapid.T) c22xCase {
@@ -43,7 +46,7 @@ func genC22x(t *rapid.T) c22xCase {
 		return c22xW{Off: pick(t, l+"off", 0, 1, 100, 4096, 5000, rapid.IntRange(0, 9000).Draw(t, l+"roff")), Len: pick(t, l+"len", 1, 7, 100, 4096, 5000),
 			Stable: pick(t, l+"stable", uint32(nfsx.Unstable), nfsx.DataSync, nfsx.FileSync, nfsx.FileSync)}
 	}
-	return c22xCase{Base: pick(t, "base", 0, 1, 4096, 10000), A: w("a"), B: w("b"), ParkAt: rapid.IntRange(1, 8).Draw(t, "park"), After: rapid.Bool().Draw(t, "after"), Commit: rapid.IntRange(0, 2).Draw(t, "commit") == 0, Async: rapid.IntRange(0, 3).Draw(t, "async") == 0}
+	return c22xCase{Base: pick(t, "base", 0, 1, 4096, 10000), A: w("a"), B: w("b"), ParkAt: rapid.IntRange(1, 8).Draw(t, "park"), After: rapid.Bool().Draw(t, "after"), Commit: rapid.IntRange(0, 2).Draw(t, "commit") == 0, Async: rapid.IntRange(0, 3).Draw(t, "async") == 0, Rename: rapid.IntRange(0, 3).Draw(t, "rename") == 0}
 }
 
 func runC22x(tb stat.TB, c c22xCase) {
@@ -120,6 +123,63 @@ func runC22x(tb stat.TB, c c22xCase) {
 		case <-time.After(10 * time.Second):
 			release()
 			tb.Fatalf("harness: WRITE A neither parked nor returned")
+		}
+		if c.Rename {
+			// the namespace changes under the parked write
+			rn := make(chan struct{})
+			go func() {
+				defer close(rn)
+				defer func() { recover() }()
+				s.nfs(nfsx.ProcRename, nfsx.ArgsRename(root, "s0", root, "s1"))
+				s.nfs(nfsx.ProcCreate, nfsx.ArgsCreate(root, "s0", nfsx.Unchecked, nfsx.Sattr{}, [8]byte{}))
+			}()
+			select {
+			case <-rn:
+			case <-time.After(300 * time.Millisecond):
+				bWaited = true
+				release()
+				<-rn
+			}
+			release()
+			select {
+			case <-aDone:
+			case <-time.After(20 * time.Second):
+				tb.Fatalf("harness: WRITE A did not return after release")
+			}
+			if resA == nil || resA.Status != nfsx.OK || resA.Committed != nfsx.FileSync || resA.Count == 0 {
+				return
+			}
+			// whichever file holds A's bytes now (volatile view) must hold them in the durable image too
+			found := false
+			for _, p := range []string{"/s0", "/s1"} {
+				vol, _, ok := v.PeekRead(p, int64(c.A.Off), int(resA.Count))
+				if !ok || len(vol) < int(resA.Count) {
+					continue
+				}
+				all := true
+				for _, b := range vol {
+					if b != fillA {
+						all = false
+					}
+				}
+				if !all {
+					continue
+				}
+				found = true
+				dur, dsize, dok := v.PeekDurable(p, int64(c.A.Off), int(resA.Count))
+				okd := dok && len(dur) >= int(resA.Count)
+				for i := 0; okd && i < int(resA.Count); i++ {
+					okd = dur[i] == fillA
+				}
+				if !okd {
+					stat.Violate(tb, id, check, "stable-data-lost-on-crash", c, "WRITE A (offset %d, %d bytes, committed=FILE_SYNC) was parked at its backend call #%d while the file was renamed to s1 and a new s0 created; its bytes are in %s, whose durable image is %d bytes long and does not hold them", c.A.Off, resA.Count, c.ParkAt, p, dsize)
+					return
+				}
+			}
+			if found {
+				stat.Label("write_straddles_rename_judged", 1)
+			}
+			return
 		}
 		// B (and its COMMIT) run beside the parked A. An implementation may serialise the requests of one file: if B
 		// has not returned after 300 ms, A is released and B is awaited after that.
